@@ -42,7 +42,8 @@ def _dump_blocks(R: Run, cfg: str, **kw) -> List[str]:
 
 
 def _init_of(kind: str, I: Dict[str, Any], rng: random.Random) -> Dict[str, Any]:
-    init = {"train": bool(I["train"]), "hard": bool(I["hard"]), "disable": bool(I["disable"]), "dc": bool(I["dc"]),
+    init = {"train": bool(I["train"]), "hard": bool(I["hard"]), "gumbel": bool(I["gumbel"]), "disable": bool(I["disable"]),
+            "dc": bool(I["dc"]),
             "cs": rng.choice(["A", "A", "D"]), "fc": rng.random() < 0.4}
     if kind == "mps" and rng.random() < 0.5:
         init["temp"] = 1          # integer-typed constructor temperature (the default is the float 1.)
@@ -121,6 +122,29 @@ def _corruption_sanity(traces: List[Dict[str, Any]], strict: bool = True) -> Non
             raise MachineryError(f"C17 trace specification accepted a corrupted trace: expected {want}, verdict {v[:120]}")
 
 
+def _stochastic(seed: int) -> List[Dict[str, Any]]:
+    """every stochastic configuration (SuperNet blocks with the Gumbel sampler, soft and hard; MPS with the Gumbel
+    sampler, soft and hard, per-layer / per-channel) x k = 0..3 TRAINING-mode forward passes / optimizer steps before
+    the checkpoint x checkpoint taken in training / in eval mode.  The observations of the experiment are taken in both
+    modes with torch.manual_seed(s) immediately before the forward pass of the original and of the restored model, so
+    all randomness must come from the global stream."""
+    out = []
+    confs = [("sn", "std", False), ("sn", "std", True), ("mps", "layer", False), ("mps", "layer", True),
+             ("mps", "channel", False), ("mps", "channel0", True), ("mps", "seq", False)]
+    for ci, (kind, variant, hard) in enumerate(confs):
+        for k in range(4):
+            for end_eval in (False, True):
+                acts = [{"a": "forward"} if (i + ci) % 2 == 0 else {"a": "step", "g": "all"} for i in range(k)]
+                if end_eval:
+                    acts.append({"a": "mode", "v": 0})
+                j = ci + k + int(end_eval)
+                init = {"train": True, "hard": hard, "gumbel": True, "disable": False, "dc": False,
+                        "cs": "A" if j % 3 else "D", "fc": j % 2 == 1}
+                out.append({"kind": kind, "variant": variant, "init": init, "wseed": seed + j, "acts": acts,
+                            "cks": [{"at": len(acts), "cfg_first": j % 2 == 0, "warm": j % 4 == 3}], "src": "stochastic"})
+    return out
+
+
 def _key(sc):
     return {k: sc[k] for k in ("kind", "variant", "init", "wseed", "acts", "cks")}
 
@@ -133,7 +157,8 @@ def run(tier: str, seed: int, replay=None) -> int:
               "observer calls}, checkpoint positions with {configuration re-applied before | after load, fresh | already used "
               "wrapper}).  Histories: one shortest history per abstract state of CheckpointMC for a seeded sample of the states "
               "TLC enumerates to closure (every state is checked at design level), checkpoint at the end on the original "
-              "object; plus the three-phase recipe (warm-up / search / fine-tuning, checkpoint after every phase) on every variant and "
+              "object; plus every stochastic configuration (Gumbel sampler, soft / hard, SuperNet and MPS) x k = 0..3 training-mode "
+              "forward passes before the checkpoint; the three-phase recipe (warm-up / search / fine-tuning, checkpoint after every phase) on every variant and "
               "seeded random histories of 14..30 calls with a checkpoint every 3..5 calls.  Non-trivial = "
               "non-empty history.")
     R.assumptions = [
@@ -195,6 +220,9 @@ def run(tier: str, seed: int, replay=None) -> int:
     R.design("CheckpointMC", "CheckpointMC_mps_bad_temp", expect_ok=False, workers=2)
     R.design("CheckpointMC", "CheckpointMC_mps_bad_theta", expect_ok=False, workers=2)
     R.design("CheckpointMC", "CheckpointMC_pit_bad_keys", expect_ok=False, workers=2)
+    # ... and a sampler that keeps a private random stream (hidden state) does not resume after one training forward
+    R.design("CheckpointMC", "CheckpointMC_sn_private_stream", expect_ok=False, workers=2)
+    R.design("CheckpointMC", "CheckpointMC_mps_private_stream", expect_ok=False, workers=2)
 
     # code -> spec: long random histories with many checkpoints
     n_rand = {"pit": 14, "mps": 14, "sn": 8} if quick else {"pit": 120, "mps": 120, "sn": 60}
@@ -208,7 +236,7 @@ def run(tier: str, seed: int, replay=None) -> int:
                 at += rng.randint(3, 5)
             cks.append({"at": len(acts), "cfg_first": rng.random() < 0.5, "warm": rng.random() < 0.3})
             init = {"train": rng.random() < 0.75, "hard": kind != "pit" and rng.random() < 0.25,
-                    "disable": False, "gumbel": kind == "mps" and rng.random() < 0.2, "dc": kind == "pit" and rng.random() < 0.4,
+                    "disable": False, "gumbel": kind != "pit" and rng.random() < 0.3, "dc": kind == "pit" and rng.random() < 0.4,
                     "cs": rng.choice(["A", "A", "D", "B"]), "fc": rng.random() < 0.4}
             if kind == "mps" and rng.random() < 0.5:
                 init["temp"] = 1      # integer-typed constructor temperature
@@ -220,6 +248,8 @@ def run(tier: str, seed: int, replay=None) -> int:
         for k, v in enumerate(ckobs.VARIANTS[kind]):
             for rep in range(1 if quick else 4):
                 scen.append(_recipe(kind, v, k + 10 * rep, seed))
+
+    scen += _stochastic(seed)
 
     by_kind = {k: [s for s in scen if s["kind"] == k] for k in ("pit", "mps", "sn")}
     scen = [by_kind[k][i] for i in range(max(map(len, by_kind.values()))) for k in ("pit", "mps", "sn")
@@ -237,6 +267,9 @@ def run(tier: str, seed: int, replay=None) -> int:
         "graphs": graph_info, "graph_scenarios": n_graph,
         "random_histories": sum(1 for s in scen if s["src"] == "random"),
         "three_phase_recipes": sum(1 for s in scen if s["src"] == "recipe"),
+        "stochastic_configurations_x_k_training_forwards": sum(1 for s in scen if s["src"] == "stochastic"),
+        "checkpoints_of_models_with_gumbel_sampler": sum(1 for t in traces if t["init"]["gumbel"]
+                                                         for e in t["ev"] if e["act"]["a"] == "ckpt"),
         "history_calls_executed": sum(len(s["acts"]) for s in scen),
         "optimizer_steps_executed": sum(1 for s in scen for a in s["acts"] if a["a"] == "step"),
         "checkpoint_experiments": len(cks_all),
